@@ -42,13 +42,14 @@ def run(tier, seed):
     cases = make_cases(tier, rng)
     obs, crashes = vlib.run_cases(binary, "TestEnvCases", cases, "c17", shards=min(12, vlib.NCPU), serial=True)
     by = {c["name"]: c for c in cases}
+    nhung = len(vlib.hung_cases(obs))
     for name in vlib.hung_cases(obs):
         rep.violation("c17:hang", "case never finished", {"case": by[name]})
         del obs[name]
     for name, out in crashes.items():
         rep.violation("c17:crash", "host died", {"case": by[name], "output": out})
     obs_list = [obs[c["name"]] for c in cases if c["name"] in obs]
-    if len(obs_list) + len(crashes) < len(cases):
+    if len(obs_list) + len(crashes) + nhung < len(cases):
         raise vlib.Inconclusive("missing observations")
     r2, dev = vlib.judge_observations("TraceEnv", "trace_env.cfg", obs_list, "c17")
     for name in dev:
